@@ -103,6 +103,29 @@ CHECKS.update({
             "DESIGN.md §2 C14"),
 })
 
+CHECKS.update({
+    "C16": ("exploration",
+            "event-log checker: wrapper on Grammar.generate_string records (symbol, argument texts, returned value | exception); every generator-defined node of every operator output and emitted solution must match a logged return for the sources recorded with it; high-entropy generator values",
+            "Templates: constant, random, dependent (one / two arguments), chained, inside computed repetitions, misfitting generators; constraints push mutation, crossover and repair onto generated fields and their arguments.",
+            "Parsed trees (sources derived through inverse generators) are outside the text oracle.",
+            "DESIGN.md §2 C16"),
+    "C17": ("exploration",
+            "paired executions in fresh interpreters: identical configuration, second process perturbed (heap layout / ids, clocks, cwd, import order, environment); event logs (solutions in order, parse-result dumps, CLI output files) compared byte for byte",
+            "Python API and real CLI; harvested deterministic specs, generated specs with constraints, generators, computed repetitions; settings grid.",
+            "Specs whose own Python is nondeterministic are excluded by a static scan; PYTHONHASHSEED is part of the configuration.",
+            "DESIGN.md §2 C17"),
+    "C18": ("exploration",
+            "paired executions: B alone in a fresh process vs. B after activity on other spec objects A in the same process; event logs compared; global-limit trace recorded; counterfactual attribution by resetting the suspected global before B",
+            "A: hard-to-solve specs that drive the adaptive tuner, computed repetitions, generators, parsing; B: open-ended and bounded repetitions, constrained specs, parse-only usage; chains of up to three A instances.",
+            "B passes random_seed itself.",
+            "DESIGN.md §2 C18"),
+    "C19": ("exploration",
+            "exhaustive (depth-bounded, fan-out sampled) walk of reachable message histories through the real PacketForecaster with every mounting path; options and completeness compared with a Brzozowski-derivative automaton of the grammar's node objects after init_io / slice_parties; single-branch chains past repetition bounds with a lowered cap; counterfactual / lenient-automaton attribution",
+            "Generated protocol grammars (alternatives, options, all repetition forms, nesting, reused messages, 2-4 parties, external parties, slices) + tests/resources/forecaster.fan.",
+            "Recursive protocol grammars and nullable bodies under repetitions are not generated.",
+            "DESIGN.md §2 C19"),
+})
+
 NOT_YET = {}
 
 
